@@ -18,6 +18,7 @@ import PolytuneModel.Proto.Validate
 import PolytuneModel.Prim.AesRng
 import PolytuneModel.Proto.ABitCheck
 import PolytuneModel.Prim.TransposePortable
+import PolytuneModel.Prim.TransposeAvx
 /-! `ptmodel`: one request per line on stdin, one response per line on stdout. -/
 open PolytuneModel PolytuneModel.Buf
 
@@ -183,6 +184,12 @@ def step (st : DState) (line : String) : DState × String :=
   | ["prim", "transposeP", rows, m] =>   -- the ALGORITHM of portable.rs (16x8 blocks, mask and shift), the subject of C20_transpose_portable
     match rows.toNat?, parseHexBytes m with
     | some r, some m => (st, "transpose " ++ hexOf (TransposeP.transposePortable m r))
+    | _, _ => (st, "bad-op")
+  | ["prim", "transposeAvx", rows, pat, m] =>   -- the model of avx2.rs (executable form, = the model of C20_transpose_avx by transposeAvxM_eq); `pat`: digits, choose i j = pat[(i + j) mod |pat|]
+    match rows.toNat?, parseHexBytes m with
+    | some r, some m =>
+      let ds := pat.toList.map (fun c => c.toNat - '0'.toNat)
+      (st, "transpose " ++ hexOf (Avx.Outer.transposeAvxM m r (fun i j => ds.getD ((i + j) % (max ds.length 1)) 0)))
     | _, _ => (st, "bad-op")
   | ["prim", "aes", k, x] =>
     match parseHexBytes k, parseHexBytes x with
